@@ -2,6 +2,7 @@
 C15 — Keepalive detects dead peers, and only dead peers. Property theorems only (view Keepalive, timed).
 -/
 import OAP.Model.Client.Keepalive
+import OAP.Model.Client.KeepaliveBounds
 import OAP.Gen.Facts
 namespace OAP.C15
 open OAP OAP.Keepalive
@@ -44,5 +45,48 @@ theorem keepalive_source :
     Gen.stmts_opt_KeepaliveTimeout = ["return func(o *DialOptions) { if d > 0 { o.KeepaliveTimeout = d } }"] ∧
     Gen.seq_client_keepalive = ["c.stateMu.Lock", "c.stateMu.Unlock", "c.stateMu.Lock", "c.stateMu.Unlock", "c.RLock", "defer:c.RUnlock", "c.write", "c.stateMu.Lock", "c.stateMu.Unlock", "select", "recv:c.closeCh", "recv:t.C", "c.RLock", "c.RUnlock", "c.reconnecting", "c.reconnecting"] :=
   ⟨rfl, rfl, rfl, rfl, rfl, rfl, rfl⟩
+
+end OAP.C15
+
+/-! Quantitative part (view KeepaliveBounds): detection latency and absence of false positives under scheduling slack -/
+namespace OAP.C15
+open OAP OAP.Keepalive
+
+/-- "detected … within keepalive interval + keepalive timeout plus scheduling slack": `J` bounds the lateness of ticks
+(first tick at most `interval + J` after the last pong, consecutive ticks at most `interval + J` apart: `Spaced`). Once
+the peer stops answering — the events are ticks only — and a ping is outstanding or sent in time by the first tick, the
+FIRST `.recycle` of the run is produced by a tick at a time in (lastPong + timeout, lastPong + timeout + interval + J],
+and no tick up to lastPong + timeout recycles. (`hout` holds by itself when `interval + J ≤ timeout`:
+`Keepalive.detection_bound_of_slack`; without it a fresh connection needs up to max(timeout, interval + J) + interval + J:
+`Keepalive.detection_bound_fresh`, `Keepalive.fresh_late_first_tick_exceeds_bound`.) -/
+theorem detection_bound (cfg : Cfg) (J : Nat) (k : K) (ticks : List Nat)
+    (hgen : k.nextId ≠ 0)
+    (hout : k.lastId ≠ 0 ∨ ∃ t ts, ticks = t :: ts ∧ t ≤ k.lastPong + cfg.timeout)
+    (hsp : Spaced (cfg.interval + J) k.lastPong ticks)
+    (hlong : ∃ t ∈ ticks, k.lastPong + cfg.timeout < t) :
+    Act.recycle ∈ (runK cfg k (ticks.map .tick)).2 ∧
+    (∃ (i t : Nat), ticks[i]? = some t ∧ (runK cfg k (ticks.map .tick)).2[i]? = some Act.recycle ∧
+      (∀ j : Nat, j < i → (runK cfg k (ticks.map .tick)).2[j]? ≠ some Act.recycle) ∧
+      k.lastPong + cfg.timeout < t ∧ t ≤ k.lastPong + cfg.timeout + cfg.interval + J) ∧
+    (∀ (i t : Nat), ticks[i]? = some t → t ≤ k.lastPong + cfg.timeout →
+      (runK cfg k (ticks.map .tick)).2[i]? ≠ some Act.recycle) :=
+  Keepalive.detection_bound cfg J k ticks hgen hout hsp hlong
+
+/-- "a peer that answers every heartbeat is never declared dead" — under late ticks (slack `J`) and slow pongs (at no
+tick a ping older than `L` is unanswered; pongs may arrive after the next tick; `L = 0` for a peer that always answers
+before the next tick) this needs `interval + J + L ≤ timeout`, and then holds for every such event list, whatever
+recoveries happen in between. `Keepalive.healthy_healthyJ`: the hypothesis of `no_false_positive` is the case
+J = L = 0; `Keepalive.jitter_condition_tight`: the condition cannot be weakened. -/
+theorem no_false_positive_jitter (cfg : Cfg) (J L : Nat) (hc : cfg.interval + J + L ≤ cfg.timeout)
+    (k : K) (es : List Ev) (h : HealthyJ cfg J L k.lastPong none es) : Act.recycle ∉ (runK cfg k es).2 :=
+  Keepalive.no_false_positive_jitter cfg J L hc k es h
+
+/-- the premise "timeout ≥ interval" of the property is NOT sufficient once ticks can be late: timeout = interval =
+200, the peer answers within 5 ms, the second tick is 10 ms late — the healthy peer is recycled. The property holds
+with the premise `interval + slack ≤ timeout` (`no_false_positive_jitter`). -/
+theorem timeout_eq_interval_needs_slack :
+    HealthyJ ⟨200, 200⟩ 10 0 0 none [.tick 200, .pong 205, .tick 410] ∧
+    (runK ⟨200, 200⟩ ⟨0, 0, 1⟩ [.tick 200, .pong 205, .tick 410]).2 = [.ping 1, .recycle] :=
+  Keepalive.timeout_eq_interval_needs_slack
 
 end OAP.C15
